@@ -98,6 +98,7 @@ theorem ks_popNamed (hAT : AT t) (hk : Keeps t X) (hok : TreeOk (PNoCol false) X
   exact hk.trans (popUntil_keep _ _ hf)
 
 theorem ks_pop_pushNew (hk : Keeps t X) (ns : Ns) (n : Name) (a : Attrs) : Keeps t (X.pushNew ns n a).pop := hk
+theorem ks_pop_insertHtml (hk : Keeps t X) (n : Name) (a : Attrs) : Keeps t (X.insertHtml n a).pop := hk
 
 theorem ks_anyOtherEndTag (hk : Keeps t X) (n : Name) (hn : n.isIn anchorNames = false) :
     Keeps t (X.anyOtherEndTag c n) := hk.trans (keeps_anyOtherEndTag c X n hn)
@@ -129,6 +130,7 @@ macro_rules
     | ((with_reducible apply ks_insertAndPop); keeps_ok $h)
     | ((with_reducible apply ks_insertHtml) <;> first | keeps_ok $h | name_side)
     | ((with_reducible apply ks_pop_pushNew); keeps_ok $h)
+    | ((with_reducible apply ks_pop_insertHtml); keeps_ok $h)
     | ((with_reducible apply ks_pushNew) <;> first | keeps_ok $h | (left; decide) | (right; decide))
     | ((with_reducible apply ks_insertFormatting) <;> first | keeps_ok $h | name_side)
     | ((with_reducible apply ks_reconstructAfe) <;> first | keeps_ok $h | tree_ok)
